@@ -42,6 +42,10 @@ QS = ["“”‘’", "«»„“", ["<<", ">>", "<", ">"], ["", "", "", ""], ["
       "\"\"''"]
 
 
+EMPTY_RUN = ['""\\*', "''\\*", '""&amp;', '"\\""', 'a ""\\* b', '*x*""\\*', '""\\\\', '""&#35;', '"" \\*', '""`c`\\*', "'' \"\"\\_",
+             '"a"\\*', "*\"\"*\\*", '[""\\*](u)', '![""\\*](u)', '""\\*""\\*', "\"'\\*'\""]
+
+
 def flat(ts, out=None):
     out = [] if out is None else out
     for t in ts:
@@ -144,6 +148,11 @@ def run(ctx: Ctx) -> None:
             qs = rng.choice(QS)
             preset = rng.choice(["js-default", "commonmark"])
             rules = rng.choice([["smartquotes"], ["replacements"], ["smartquotes", "replacements"]])
+            if it < len(EMPTY_RUN) * len(QS):
+                # a text run that the substitution empties (a quote pair replaced by empty strings) or shortens, directly in front of
+                # an escape / entity / code span: text_join must still merge the pieces exactly as with the typographer off
+                s, qs = EMPTY_RUN[it % len(EMPTY_RUN)], QS[it // len(EMPTY_RUN)]
+                rules = ["smartquotes"] if it % 2 else ["smartquotes", "replacements"]
             info = {"input": s, "quotes": qs, "rules": rules, "preset": preset}
             try:
                 off, boxo = snap_md(preset, {"typographer": False}, rules)
